@@ -21,7 +21,8 @@ ASSUMPTIONS = ['virtual time: library processing takes zero time, so setpoint in
                'an altitude of exactly 0 at land() is excluded (division by zero in down(0) needs measure-zero timing on a real clock)']
 REQUIRED = ['mon.mc_programs', 'mon.mc_exceptions_in_body', 'mon.mc_hover_setpoints', 'mon.mc_primitives_checked',
             'mon.hl_programs', 'mon.hl_goto_checked', 'mon.hl_exceptions_in_body', 'mon.quiet_after_landing',
-            'mon.mc_consecutive_motions_with_same_vertical_velocity', 'mon.mc_statement_level_preemption_runs']
+            'mon.mc_consecutive_motions_with_same_vertical_velocity', 'mon.mc_statement_level_preemption_runs',
+            'mon.mc_flights_ending_below_take_off_level']
 DESC_TIMEOUT = 900
 PERIOD = 0.2
 
@@ -121,7 +122,30 @@ def gen_mc_program(rnd):
             prog.append((k, rnd.choice(('left', 'right')), rnd.uniform(0.1, 1.5), v, rnd.uniform(0.01, 2.0)))
         else:
             prog.append((k, d, v))
+    if rnd.random() < 0.15:
+        # took off from a table, lands on the floor: the flight ends below the take-off level
+        # (non-round distance and velocity: the streamed height must not pass through exactly 0.0 at a streaming
+        # instant - land() descends by the last streamed height and a height of exactly zero is outside the envelope)
+        d = z + rnd.uniform(0.05, 0.6)
+        prog.append(('down', d, rnd.uniform(0.2, 0.5)))
+        z -= d
     return h0, prog
+
+
+def _ends_below(h0, prog):
+    z = h0
+    for p in prog:
+        if p[0] == 'up':
+            z += p[1]
+        elif p[0] == 'down':
+            z -= p[1]
+        elif p[0] == 'move':
+            z += p[1][2]
+        elif p[0] == 'start':
+            z += p[1][2] * p[2]
+        elif p[0] == 'start_chain':
+            z += sum(v[2] * dw for v, dw in p[1])
+    return z < 0
 
 
 def run_mc(desc, ctx):
@@ -242,6 +266,8 @@ def run_mc(desc, ctx):
                 _, abort, sch = harness.sched_case(fn, seed=desc['seed'] * 31 + it, policy=pol, horizon=5000.0)
             ctx.evals()
             ctx.count('mon.mc_programs')
+            if prog and prog[-1][0] == 'down' and (boom_at is None) and sum(1 for _ in prog) and _ends_below(h0, prog):
+                ctx.count('mon.mc_flights_ending_below_take_off_level')
             ctx.count('mon.mc_consecutive_motions_with_same_vertical_velocity', ob.pop('same_vz', 0))
             info = {'program': core.jsonable(prog)[:8], 'default_height': h0, 'exception_before_primitive': boom_at, 'form': form,
                     'schedule': pol}
